@@ -41,6 +41,14 @@ PROPS = {
         "design_ref": "DESIGN.md section 7, C04",
         "assumptions": ["scalars are exact real numbers; sin, cos, sqrt are the real functions"],
     },
+    "C09": {
+        "claimed": True,
+        "technique": "Coq proof (field/nsatz over R, compositional: unit forward/side vectors abstracted) over programs translated from the compiled code",
+        "level_text": "look_at_{lh,rh}, the deprecated aliases, model_look_at_{lh,rh}, basis_to_local and local_to_basis (both layouts) are translated from the compiled code and proved equal, for ALL inputs, to the GLM frame construction; for EVERY eye/target/up with eye != target and up not parallel to the view direction the view matrix is proved rigid (orthonormal both ways, det +1, last row 0001), sends the eye to the origin, the target to (0,0,+-|target-eye|), up into the half-plane x=0,y>0, and the model matrix is its two-sided inverse sending the origin to the eye; local_to_basis maps origin and unit axes as stated and basis_to_local undoes it for every orthonormal basis. The 4 look-at unit tests check one configuration each.",
+        "level_note": "Trusted: Coq kernel; stdlib real-number axioms as printed (sig_forall_dec, sig_not_dec, functional_extensionality_dep, classic); symx translator (self-checked each run); Rust parametricity. sqrt is the real function; float rounding not modelled.",
+        "design_ref": "DESIGN.md section 7, C09",
+        "assumptions": ["scalars are exact real numbers"],
+    },
 }
 
 for _k in PROPS: PROPS[_k].setdefault("selfcheck", {"quick": 200, "thorough": 5000})
